@@ -1,6 +1,6 @@
 (** C11 — files are flushed before they are published, and published before acknowledged *)
 From Coq Require Import List NArith Bool.
-From LS Require Import Fs.Model Fs.Monitor Fs.Publish Fs.Proofs Fs.ProtoProofs Fs.CoverProofs Fs.ExactProofs.
+From LS Require Import Fs.Model Fs.Monitor Fs.Publish Fs.Proofs Fs.ProtoProofs Fs.CoverProofs Fs.ExactProofs Fs.V3Proofs.
 Import ListNotations.
 Open Scope N_scope.
 
@@ -57,6 +57,14 @@ Theorem acked_txids_stay_covered : forall t,
     complete_after (run t1 fs_empty) s' q.
 Proof. exact CoverProofs.acked_txids_stay_covered. Qed.
 Print Assumptions acked_txids_stay_covered.
+
+(** the legacy v0.3.x restore (RestoreV3): snapshot download flushed before the
+    rename, optional SQLite checkpoint phase, directory fsync, for all sizes *)
+Theorem restore_v3_ok : forall m fd fd2 dfd dir nm nm' ws ckpt,
+  Inv m -> stage_ready m (mkPath dir nm' CTmp) ->
+  run_ok (restore_v3 fd fd2 dfd dir nm nm' ws ckpt) m = true.
+Proof. exact V3Proofs.restore_v3_ok. Qed.
+Print Assumptions restore_v3_ok.
 
 (** content, not only presence: a name acknowledged and not renamed over /
     unlinked since resolves, after a power failure, to exactly the inode
